@@ -12,7 +12,7 @@
    every vote set, the lock - whatever the signer file holds by then (the state machine's state
    is independent of the signer record: Proofs/SignerIndep.v). *)
 From Coq Require Import List NArith ZArith Lia Bool.
-From AnnVerif Require Import Base.Res Base.Bytes Model.VoteSet Model.ValSet Model.Node Proofs.NodeProofs Proofs.SignerIndep.
+From AnnVerif Require Import Base.Res Base.Bytes Model.VoteSet Model.ValSet Model.Node Proofs.NodeProofs Proofs.SignerIndep Proofs.SgWalk Proofs.SignerDom.
 Import ListNotations.
 Open Scope Z_scope.
 
@@ -53,6 +53,22 @@ Theorem c07_replay_restores :
   exists n0' n' s', init_node h vs lc me s1 = Ok n0' /\ run c ins n0' = Ok n' /\ n' = set_sg n s'.
 Proof. exact replay_restores. Qed.
 Print Assumptions c07_replay_restores.
+
+(* (4b) and with the signer file exactly as the crash left it - the signer record of the state
+   reached - the replay ends in exactly that state, signer record included: nothing is signed afresh
+   while replaying one's own intact log (a signer record at or beyond everything the run signed is
+   inert, function by function: Proofs/SignerDom.v) *)
+Theorem c07_replay_is_identity :
+  forall c, c_skip_commit c = false ->
+  forall h vs lc me s0 ins n0 n, init_node h vs lc me s0 = Ok n0 -> run c ins n0 = Ok n ->
+  exists n0', init_node h vs lc me (sg n) = Ok n0' /\ run c ins n0' = Ok n.
+Proof. exact restart_is_identity. Qed.
+Print Assumptions c07_replay_is_identity.
+Theorem c07_dominating_signer_is_inert :
+  forall c, c_skip_commit c = false ->
+  forall ins n n' s, run c ins n = Ok n' -> sg_le (sg n') s -> run c ins (set_sg n s) = Ok (set_sg n' s).
+Proof. exact replay_inert. Qed.
+Print Assumptions c07_dominating_signer_is_inert.
 
 (* and one input at a time: the same path, the same failure, the same state up to the signer *)
 Theorem c07_step_is_signer_independent : forall c i, obl (handle c i).
